@@ -55,6 +55,20 @@ theorem process_err (cfg : Cfg α β) (s : St σ) (inb : Option (InBuf β)) (ile
   unfold process
   simp only [hn, if_false, he', if_true]
 
+theorem rel_flushAll (Sh : Shape E κ) {c ch : Nat} {S s : St σ} (h : Rel Sh c ch S s) :
+    Rel Sh c ch (flushAll E S) (flushAll E s) := by
+  have hc : (s.flushing = true ∧ s.error.isSome = false) ↔ (S.flushing = true ∧ S.error.isSome = false) := by
+    rw [h.flushing, h.error]
+  unfold flushAll
+  by_cases hS : S.flushing = true ∧ S.error.isSome = false
+  · rw [if_pos hS, if_pos (hc.mpr hS)]
+    refine ⟨h.hc, by simp [h.len], h.clen, ?_, ?_, h.clips, h.flushing, h.error, h.fn, h.seed⟩
+    · exact uniform_map Sh S.eng _ h.uni (fun e e' he => by rw [Sh.flush_sh, Sh.flush_sh, he])
+    · show s.eng.map _ = (S.eng.map _)[c]?.toList
+      rw [h.eng, toList_getElem?_map]
+  · rw [if_neg hS, if_neg (fun x => hS (hc.mp x))]
+    exact h
+
 theorem procIlen_le (cfg : Cfg α β) (b : InBuf β) (ilen0 : Nat) (wi : Bool) (olen : Nat) :
     procIlen cfg (some b) ilen0 wi olen ≤ ilen0 := by
   unfold procIlen
@@ -119,7 +133,7 @@ theorem process_sim (Sh : Shape E κ) (cfg : Cfg α β) {c : Nat} (V : ChanConv 
   by_cases hn : op = false ∧ inb.isNone
   · unfold process
     simp only [hnone, hn, and_self, if_true, procIlen_proj]
-    exact ⟨hfl, by simp, by simp, hb, blank_length _⟩
+    exact ⟨rel_flushAll Sh hfl, by simp, by simp, hb, blank_length _⟩
   · by_cases hE : S.error.isSome = true
     · rw [process_err cfg S inb ilen0 fr wi op olen rs hn hE,
         process_err (monoCfgC cfg mc) s _ ilen0 fr wi op olen _ (by rw [hnone]; exact hn) (by rw [h.error]; exact hE)]
